@@ -26,3 +26,14 @@ claim('C01', 'model_checking',
       'escapes, that tables tile and names resolve. Each emitted image is a conformance case for the real ELFFile.',
       'trusts TLC, the sparse writer (10 lines), the transcription of the gABI layouts in Elf.tla, and the vendored registry; names the '
       'registry does not define are not asserted; special section types get minimal valid content', 'DESIGN.md 5/C01')
+claim('C04', 'model_checking',
+      'TLA+ DWARF unit/abbreviation/entry writer with byte-level Enc, form table and declarative view (spec/DieTree.tla, DwarfForms.tla) '
+      'model-checked by TLC (Tiling via a byte-level reader, NestingMatches, NullsClose, SiblingShortcutSound); every emitted object '
+      'is replayed into DWARFInfo under three access orders',
+      'TLC enumerates the complete product form x value class x DWARF version 2-5 x 32/64-bit format x address size x byte order, '
+      'every unit-header kind, mixed-parameter unit sequences, v4 type units and every tree shape in bounds (sibling attributes in '
+      'several reference forms, cross-unit references, non-minimal null entries) and checks tiling/nesting on the specification; '
+      'each object is a conformance case for iter_CUs/iter_DIEs/attributes/iter_children/get_parent/get_DIE_from_attribute.',
+      'trusts TLC, the transcription of DWARF 7.5 in DwarfForms.tla/DieTree.tla, and the value normaliser; small-scope: trees of <= 5 (quick) '
+      '/ 6 (thorough) entries over <= 2 units; tag/attribute names asserted only where the vendored registry defines them',
+      'DESIGN.md 5/C04')
